@@ -1261,6 +1261,9 @@ macro_rules! impl_binop_assign {
                 {
                     self.data[i].$method(0);
                 }
+                if let Some(l) = self.data.get_mut(self.length / Bvd::BIT_UNIT) {
+                    *l &= u64::mask(self.length % Bvd::BIT_UNIT);
+                }
             }
         }
 
@@ -1272,11 +1275,15 @@ macro_rules! impl_binop_assign {
 
         impl<I: Integer, const N: usize> $trait<&Bvf<I, N>> for Bvd {
             fn $method(&mut self, rhs: &Bvf<I, N>) {
-                for i in 0..usize::min(IArray::int_len::<u64>(rhs), self.data.len()) {
+                let len = Self::capacity_from_bit_len(self.length);
+                for i in 0..usize::min(IArray::int_len::<u64>(rhs), len) {
                     self.data[i].$method(IArray::get_int::<u64>(rhs, i).unwrap());
                 }
-                for i in usize::min(IArray::int_len::<u64>(rhs), self.data.len())..self.data.len() {
+                for i in usize::min(IArray::int_len::<u64>(rhs), len)..len {
                     self.data[i].$method(0);
+                }
+                if let Some(l) = self.data.get_mut(self.length / Bvd::BIT_UNIT) {
+                    *l &= u64::mask(self.length % Bvd::BIT_UNIT);
                 }
             }
         }
